@@ -407,7 +407,10 @@ func ResetRun() {
 
 // ResetProcessState forgets what simulated sync primitives hold (pool contents, Once
 // states): together with the restored package variables this is the state of a fresh process.
-func ResetProcessState() { resetSync() }
+func ResetProcessState() {
+	resetSync()
+	Hot = 0
+}
 
 // ---- synchronisation primitives (seam S6) -------------------------------------
 // A task parked on a real lock could never be released by a cooperative scheduler,
